@@ -20,6 +20,7 @@ import (
 	"math/rand"
 	"runtime"
 	"sort"
+	"strings"
 	"time"
 
 	"github.com/olric-data/olric/internal/cluster/partitions"
@@ -123,7 +124,10 @@ func (s *Service) scanFragmentForEviction(partID uint64, name string, f *fragmen
 	var maxTotalCount = 100
 	var totalCount = 0
 
-	dm, err := s.getOrCreateDMap(name)
+	// name is the fragment's name in the partition, "dmap.<DMap name>". Resolving the DMap
+	// by that name creates a different DMap: its configuration is not applied and the
+	// deletions are sent to the previous owners and the backups under a wrong name.
+	dm, err := s.getOrCreateDMap(strings.TrimPrefix(name, "dmap."))
 	if err != nil {
 		s.log.V(3).Printf("[ERROR] Failed to load DMap: %s: %v", name, err)
 		return
